@@ -84,6 +84,36 @@ fn check_ark(r1: &Recipe, r2: &Recipe, ctx: &mut Ctx) -> Result<(), Failure> {
             ctx.class("ark:unequal-elements-equal-hash-stream");
         }
     }
+    // the same element reached through AffinePoint operator forms must be indistinguishable from a1:
+    // equal, same hash stream, same encoding (an un-normalised result still satisfies x1*y2 == x2*y1)
+    {
+        let s_aff: AA = e2.into_affine();
+        let sum_aff: AA = (e1 + e2).into_affine();
+        let mut via_sub_assign = sum_aff;
+        via_sub_assign -= s_aff;
+        let mut via_sub_assign_ref = sum_aff;
+        via_sub_assign_ref -= &s_aff;
+        let via_sub: AA = &sum_aff - &s_aff;
+        let mut via_add_assign: AA = (e1 - e2).into_affine();
+        via_add_assign += &s_aff;
+        let via_add: AA = &((e1 - e2).into_affine()) + &s_aff;
+        let mut via_mul_assign = a1;
+        via_mul_assign *= crate::api::arkf::fr(&crate::refmodel::N::from(1u32));
+        let via_neg: AA = -(-a1);
+        for (name, x) in [("-=", via_sub_assign), ("-=&", via_sub_assign_ref), ("&-&", via_sub), ("+=&", via_add_assign), ("&+&", via_add), ("*=1", via_mul_assign), ("neg-neg", via_neg)] {
+            ctx.sub_eval();
+            let xe: AE = x.into_group();
+            if !(x == a1) || !(a1 == x) {
+                ctx.report(format!("C08|ark:AffinePoint({name})|eq"), format!("AffinePoint obtained through {name} does not compare equal to the same element"))?;
+            }
+            if xe.vartime_compress().0 != e1.vartime_compress().0 {
+                ctx.report(format!("C08|ark:AffinePoint({name})|encoding-vs-equality"), format!("AffinePoint obtained through {name} compares equal to the element but encodes to {} instead of {}", hex::encode(xe.vartime_compress().0), hex::encode(e1.vartime_compress().0)))?;
+            }
+            if hashes(&x) != hashes(&a1) {
+                ctx.report(format!("C08|ark:AffinePoint({name})|hash"), format!("AffinePoint obtained through {name} compares equal to the element but hashes differently"))?;
+            }
+        }
+    }
     // identity predicates agree with the model for every representation
     for (e, a, m) in [(e1, a1, &m1), (e2, a2, &m2)] {
         let is_id = c.is_identity_element(&m.pt);
@@ -185,6 +215,13 @@ impl Property for C08 {
         prop_oneof![
             1 => (backend(5, 1), equal_pair()).prop_map(|(bk, (r1, r2))| Case { bk, r1, r2 }),
             1 => (backend(5, 1), recipe::recipe_small(), recipe::recipe_small()).prop_map(|(bk, r1, r2)| Case { bk, r1, r2 }),
+            // elements whose affine x has a sparse Montgomery representation, against the identity and against their own negation
+            1 => (backend(1, 2), crate::gen::mont_sparse(&crate::refmodel::Q.m), 0u8..3).prop_map(|(bk, x, w)| {
+                use Recipe::*;
+                let p = FromX(x);
+                let other = match w { 0 => Identity, 1 => Neg(Box::new(p.clone())), _ => Torsion(Box::new(Identity)) };
+                Case { bk, r1: p, r2: other }
+            }),
         ]
         .boxed()
     }
